@@ -1352,8 +1352,12 @@ class AdbDeviceAsync(object):
         msg = AdbMessage(constants.WRTE, adb_info.local_id, adb_info.remote_id, filesync_info.send_buffer[:filesync_info.send_idx])
         await self._io_manager.send(msg, adb_info)
 
-        # Expect an 'OKAY' in response
-        await self._read_until([constants.OKAY], adb_info)
+        # Expect an 'OKAY' in response; a 'WRTE' (e.g., a FileSync 'FAIL') may arrive first, so keep its data for later
+        while True:
+            cmd, data = await self._read_until([constants.OKAY, constants.WRTE], adb_info)
+            if cmd == constants.OKAY:
+                break
+            filesync_info.recv_buffer += data
 
         # Reset the send index
         filesync_info.send_idx = 0
